@@ -222,14 +222,17 @@ def run(job, seed):
     return cx.acc.result()
 
 
-def _render(tokens, nm):
+Q_SPELLINGS = ('"q"', '"or"', "'And'", '"not"')
+
+
+def _render(tokens, nm, q='"q"'):
     it = iter(nm)
     out = []
     for t in tokens:
         if t == 'L':
             out.append('role:' + next(it))
         elif t == 'Q':
-            out.append('"q"')
+            out.append(q)
         else:
             out.append(t)
     return ' '.join(out)
@@ -388,6 +391,13 @@ def _classify_and_check(cx, space, toks):
     else:
         cx.must_deny(space, text, cx.spread(k, k <= 3),
                      '%s|%s' % (space, ' '.join(toks)))
+        if 'Q' in toks:
+            # a quoted string is a quoted string whatever it spells - also
+            # the keywords of the language
+            for q in Q_SPELLINGS[1:]:
+                cx.must_deny(space, _render(toks, cx.names, q),
+                             cx.spread(k, False),
+                             '%s|%s|quoted-keyword' % (space, ' '.join(toks)))
 
 
 def run_S3(cx, job):
